@@ -431,6 +431,7 @@ class C20(Prop):
                 cfg["n_libs"] = max(2, cfg["n_libs"])
             cfg["undef_dir_rate"] = r.choice([0.0, 0.3]) if cfg["copy"] == "clone" else 0.0
             cfg["case_twin_rate"] = r.choice([0.0, 0.3]) if cfg["copy"] == "clone" else 0.0
+            cfg["empty_name_rate"] = r.choice([0.0, 0.0, 0.2]) if cfg["copy"] == "clone" else 0.0
         else:
             cfg["source"] = "example"
             cfg["fmt"] = r.choice(["edf", "edf", "v", "v", "eblif"])
